@@ -29,6 +29,9 @@ belongs to a recorded finding):
 * `history`    at the next commit of the run database no `task_states` / `task_outputs` row of a matched id
                (or of a child that stood down) carries a flow of `F` (unless the instance was spawned again
                in the meantime), and an instance spawned again in the meantime has its `task_states` row;
+* `others-history` every `task_states` / `task_outputs` row of a task other than the matched ids keeps its flows
+               (after the command and at the next commit); only a child that stood down loses, in its rows, the flows
+               it was removed in -- its history in other flows stays;
 * `respawn`    "so it can run again later": until that commit, an output completed upstream of an id that was
                removed from all its flows spawns it again as if it had never run.
 
@@ -271,6 +274,19 @@ def judgeAll (g : Graph) (ops : List Json) (rms : List RmCmd) (obs : Array Ob) :
               else if same (found T) || sameSelf (found T) then kElse
               else if same (gp (found T)) || sameSelf (gp (found T)) then kAbs else none
             fails := fails ++ [⟨key, s!"prereqs: op {i}: prerequisites of {showKey k} (flows {x.fl}) after the removal of {M.map showKey} from {showF}: {(sortAtoms y.pre).map showAtom} suicide {(sortAtoms y.sui).map showAtom}, expected {(sortAtoms (unsetBy T x.pre)).map showAtom} suicide {(sortAtoms (unsetBy T x.sui)).map showAtom}"⟩]
+    -- clause `others-history`: the DB rows of every task other than the matched ids --------------------------------
+    -- a row keeps its flows; only a child that stood down loses, in its rows, the flows it was removed in
+    let stoodFr : List (Key × List Nat) :=
+      (B.pool.filter fun x => !M.contains x.key && removedKeys.contains x.key).map fun x => (x.key, concerned x.fl F)
+    let rowsKept (rb ra : List Row) (when_ : String) : List Fail :=
+      (rb.filter fun r => !M.contains r.key).filterMap fun r =>
+        let fr := ((stoodFr.find? (·.1 == r.key)).map (·.2)).getD []
+        let want := r.fl.filter fun f => !fr.contains f
+        if ra.any (fun q => q.key == r.key && q.states == r.states && (sameSet q.fl r.fl || sameSet q.fl want)) then none
+        else some ⟨none, s!"others-history: op {i}: the {if r.states then "task_states" else "task_outputs"} row of {showKey r.key} with flows {r.fl} (not among the removed ids {M.map showKey}{if fr.isEmpty then "" else s!"; it stood down from flows {fr}"}) is gone {when_}: its rows now have flows {(ra.filter fun q => q.key == r.key && q.states == r.states).map (·.fl)}"⟩
+    match B.rows, A.rows with
+    | some rb, some ra => fails := fails ++ (rowsKept rb ra "after the command").take 2
+    | _, _ => pure ()
     -- the window up to the next commit of the run DB: the ops after the command up to the first main loop ---------
     let nextLoop : Option Nat := ((ops.zipIdx).find? fun (op, q) => q > i && (isLoop op || isRestart op)).map (·.2)
     let wEnd : Nat := match nextLoop with | some j => j | none => nOps - 1     -- last op index of the window
@@ -284,6 +300,13 @@ def judgeAll (g : Graph) (ops : List Json) (rms : List RmCmd) (obs : Array Ob) :
           match oj.rows with
           | none => pure ()
           | some rows =>
+            -- (clause `others-history` again, once the queued operations are written, unless another command came)
+            let otherCmd := (List.range (j + 1)).any fun q => q > i &&
+              (jStrField? (ops[q]?.getD Json.null) "op") == some "cmd" &&
+              ((jStrField? (ops[q]?.getD Json.null) "name").getD "" ∈ ["remove_tasks", "force_trigger_tasks"])
+            match B.rows with
+            | some rb => if !otherCmd then fails := fails ++ (rowsKept rb rows s!"at the next commit (op {j})").take 2
+            | none => pure ()
             -- stood-down children are erased from the flows they were removed in
             let stood : List (Key × List Nat) :=
               (B.pool.filter fun x => !M.contains x.key && removedKeys.contains x.key).map fun x => (x.key, concerned x.fl F)
